@@ -144,8 +144,10 @@ def run(ctx):
     if quick:
         confs = [("gen(full,d0,v2,nm)", 0, 2, 0, 0, "full"), ("gen(small,d2,v1)", 2, 1, 0, -1, "small")]
     else:
-        confs = [("gen(full,d1,v2,nm)", 1, 2, 0, 1, "full"), ("gen(small,d2,v2)", 2, 2, 0, -1, "small"),
-                 ("gen(small,d3,v1)", 3, 1, 0, -1, "small"), ("gen(mid,d2,v1)", 2, 1, 0, -1, "mid")]
+        confs = [("gen(full,d1,v2)", 1, 2, 0, -1, "full"), ("gen(small,d2,v2)", 2, 2, 0, -1, "small"),
+                 ("gen(small,d3,v1)", 3, 1, 0, -1, "small"), ("gen(full,d0,v2,nm)", 0, 2, 0, 0, "full")]
+    if os.environ.get("C07_CONFS"):          # development aid: [[name, depth, maxvar, nmvar, nmdepth, profile], ...]
+        confs = [tuple(c) for c in json.loads(os.environ["C07_CONFS"])]
     rows_r, rows_nm = [], []
     with ThreadPoolExecutor(len(confs) + 1) as ex:
         futs = [ex.submit(core.tlc, "CDecl", cfg_text=pe.gen_cfg(d, v, nmv, nmd, prof), workers=4, timeout=2400)
